@@ -51,7 +51,10 @@ MORE = {
               "not proved absent) and the re-initialisation path (C20). Tie: nodediff (model = code on every step, two interleaved rounds, state reset and full replay through the model) and, on the "
               "real nodes after every ceremony: nodes that consumed the same log agree on the time-free public projection; a fresh process replaying the log with random poll sizes and restarts equals "
               "the live node; two participants agree on a random prefix; a replica shown only round R's messages agrees on R; ResetFSMState in the running process followed by a replay (prefix and full, "
-              "with and without an ignore list) equals a fresh replay; duplicates re-posted by a replaying node change nobody."),
+              "with and without an ignore list) equals a fresh replay; duplicates re-posted by a replaying node change nobody; a replica shown the same log with every stamp in it moved 30 days back "
+              "(each message re-signed with its sender's key: the log read a month later) agrees with the live node (clock_independent). Props/SrcFacts.lean, over the clock reads the translator lists "
+              "from the source on every run: clock_readers_known, round_machines_read_no_clock (no function under fsm/, fsmservice, the repositories or the board storage reads the wall clock; the only "
+              "readers are the poller's ticker, ProposeSignMessages and handleMessage's request stamp, which is the clock input of the model)."),
         ref='7 C08', note=NODE_NOTE),
 }
 
